@@ -423,8 +423,14 @@ func genC19Tasks(g *Gen, seed uint64, idx int64) []C19Task {
 // cost class.
 func varyCall(g *Gen, c *Call) {
 	switch c.Op {
+	case "line_ext":
+		if len(c.Ints) >= 2 {
+			c.Ints[1] = max64(0, min64(35, c.Ints[1]+[]int64{-2, -1, 1}[g.R.Intn(3)])) // another vertical zoom, same segment
+		}
 	case "corridor":
-		if len(c.Flts) > 0 && g.R.Chance(2, 3) {
+		if len(c.Ints) >= 2 && g.R.Chance(1, 4) {
+			c.Ints[1] = max64(0, min64(35, c.Ints[1]+[]int64{-1, 1}[g.R.Intn(2)]))
+		} else if len(c.Flts) > 0 && g.R.Chance(2, 3) {
 			c.Flts[0] = round10(c.Flts[0] * []float64{0.1, 0.5, 0.8, 1.3}[g.R.Intn(4)])
 		} else if len(c.Bools) > 0 {
 			c.Bools[0] = !c.Bools[0]
